@@ -32,7 +32,7 @@ def site_problems(ctx, n):
         if i % 4 == 0:
             probs.append(pc.gen_header_problem(ctx.rng))      # generation/use at nearly the same utility level
             continue
-        regime = ctx.rng.choice(["none", "iso", "multi", "steered", "glide"])
+        regime = ctx.rng.choice(["none", "iso", "multi", "steered", "glide", "limit"])
         probs.append(pc.gen_problem(ctx.rng, nzones=ctx.rng.choice([1, 2, 2, 3, 4]), regime=regime, nmax=5))
     return probs
 
